@@ -12,14 +12,14 @@
 (* Machine  : match() and balanced_outward() as the code's stack /           *)
 (*   pending-property machines over the scan events.                         *)
 (* Contract : on the truth table only (strict containment + depth).          *)
-EXTENDS Common, Json
+EXTENDS Common, Json, CssScan
 
 CONSTANTS MaxSeg, MaxDepth, SelIdx, ValIdx, NameIdx, Fillers, Loose, SemiInParens,
           NoSemi       \* also generate a last declaration that is terminated by the end of the body (C17 only)
 
-Sels == <<"a", "a:hover", "@media (min-width: 10px)", "a::before", "b[x=\"{\"]", ".c > d", "e[t='a\"{']", "a:not([t=\"}\"])", "a, b", "&:hover", "a ~ b > c">>
+Sels == <<"a", "a:hover", "@media (min-width: 10px)", "a::before", "b[x=\"{\"]", ".c > d", "e[t='a\"{']", "a:not([t=\"}\"])", "a, b", "&:hover", "a ~ b > c", "d/* { ; */ e">>     \* 12: a comment glued to the words of a selector
 Names == <<"color", "--v", "$v", "margin", "-webkit-x">>
-Vals == <<"red", "\"x;y\"", "url(a:b)", "1px  solid", "'{}'", "calc(1px + (2px))", "\"it's }\"", "'a\"{b;'", "url(\"x;y\")", "f(\")\", '(')", "50%", "10% 20%", "\"a\\\"b;\"", "red !important">>     \* 7, 8: a string holding the other kind of quote
+Vals == <<"red", "\"x;y\"", "url(a:b)", "1px  solid", "'{}'", "calc(1px + (2px))", "\"it's }\"", "'a\"{b;'", "url(\"x;y\")", "f(\")\", '(')", "50%", "10% 20%", "\"a\\\"b;\"", "red !important", "1px/* ; } */ 2px">>     \* 7, 8: a string holding the other kind of quote
 BadVal == "f(c;d)"        \* a semicolon inside parentheses: known finding F16, generated only when SemiInParens
 
 VARIABLES doc, nodes, evs, open, nseg, hasF16
@@ -80,6 +80,12 @@ Filler == Step /\ (\E t \in Fillers : doc' = doc \o (IF t = "NL" THEN "\n  " ELS
 Next == OpenRule \/ CloseRule \/ Decl \/ DeclClose \/ Filler
 Spec == Init /\ [][Next]_vars
 Complete == open = <<>> /\ nseg > 0
+
+(* the character-level scanner (CssScan.tla, transcribed from css_matcher/scan.py) reads every generated stylesheet back to
+   exactly the recorded events: scanner machine = generator's truth (not where a value holds the semicolon of finding F16) *)
+ScanInv == (Complete /\ ~hasF16) => LET got == CScan(doc) IN
+              /\ Len(got) = Len(evs)
+              /\ \A k \in 1..Len(evs) : got[k].t = evs[k].t /\ got[k].s = evs[k].s /\ got[k].e = evs[k].e /\ got[k].d = evs[k].dl
 
 (* --------------------------------------------------------------- contract *)
 Ch0(i) == SubSeq(doc, i + 1, i + 1)
